@@ -13,6 +13,9 @@ const char *xv_ap_base; /* the object holding the string handed to attr_path_par
 size_t xv_ap_len;       /* its strlen */
 size_t xv_ap_j;         /* arbitrary component number (never assigned) */
 size_t xv_ap_q;         /* arbitrary character position, relative to the pointer a function got (never assigned) */
+size_t xv_ap_a;         /* arbitrary ABSOLUTE position in the string object (never assigned) */
+long xv_ap_strtol_val;   /* value returned by the last strtol (env/attrpath_env.h) */
+size_t xv_ap_strtol_used;/* number of characters it consumed (end - nptr) */
 #define AP_STR_MAX 300
 #define AP_END (AP_STR_MAX - 1)
 #define AP_OFF(p) ((size_t)__CPROVER_POINTER_OFFSET(p))
